@@ -237,6 +237,18 @@ def _explore_discovery(args):
 
 def run(tier, seed):
     rep = Report()
+    # a script next to the discovery thread (every known light answers): the script's commands are those of its solo run
+    from . import concur
+    cpairs = [(POP, 'print 1 on "a" set "h" on group "k" print 2', '<discover>', 1),
+              (POP, 'set "s" zone 1 set "m" row 0 off location "p"', '<refresh>', 1)]
+    ctasks = concur.split(cpairs, 4)
+    cres = par.run_tasks(concur.pair_task, ctasks)
+    cexec = sum(r['execs'] for r in cres)
+    assert cexec > 50
+    for task, r in zip(ctasks, cres):
+        for kind, (cnt, choices, detail, texts) in r['viol'].items():
+            rep.violation(kind + ':next-to-discovery', '%s (%d schedules): %s; threads %r' % (kind, cnt, detail, texts),
+                          {'pair': [list(t) for t in texts], 'choices': choices, 'detail': detail, 'schedules': cnt})
     bound = 6 if tier == 'quick' else 9
     scripts = menu()
     tasks = [(t, bound) for t in scripts]
@@ -269,6 +281,7 @@ def run(tier, seed):
         rep.violation(kind, '%s (%d fault assignments), fewest silent requests %d: `%s`: %s' % (kind, cnt, nfail, text, detail),
                       {'script': text, 'choices': choices, 'detail': detail, 'part': part, 'assignments': cnt})
     rep.coverage = {
+        'script_next_to_discovery_schedules': cexec,
         'states': tot_req, 'transitions': tot_req,
         'traces_validated_against_impl': tot_exec, 'evaluations': tot_exec,
         'distinct_nontrivial': outcomes,
@@ -291,6 +304,9 @@ def replay(path):
     v = json.load(open(path))
     wit = v['witness']
     print('recorded:', v['sig'], wit['detail'])
+    if 'pair' in wit:
+        from . import concur
+        return concur.replay(POP, wit['pair'], wit['choices'])
     if wit['part'] == 'script':
         w = world.World(POP)
         ch = choice.Chooser(wit['choices'])
